@@ -34,14 +34,15 @@ use white_whale_std::pool_network::trio as t;
 const E18: u128 = 1_000_000_000_000_000_000;
 const ACCTS: [&str; 6] = ["user0", "user1", "user2", "user3", "collector", "owner"];
 const DENOMS: [&str; 3] = ["ua", "ub", "uc"];
-/// denom triples the history worlds are built with (chosen by `(amp + h) % 4`, a function of the init
+/// denom triples the history worlds are built with (chosen by `(amp + h) % 5`, a function of the init
 /// line, so the line format is unchanged): plain denoms, IBC vouchers (upper-case hex), a token-factory
-/// denom whose last segment is another asset's denom, denoms that are prefixes of each other
-const DENOM_SETS: [[&str; 3]; 4] = [
+/// denom whose last segment is another asset's denom, denoms that are prefixes of each other, denoms differing only in case
+const DENOM_SETS: [[&str; 3]; 5] = [
     ["ua", "ub", "uc"],
     ["ibc/27394FB092D2ECCD56123C74F36E4C1F926001CEADA9CA97EA622B25F41E5EB2", "uusd", "ibc/B3504E092456BA618CC28AC671A71FB08C6CA0FD0BE7C8A5B5A3E2DD933CC9E4"],
     ["uwhale", "factory/migaloo1creator/uwhale", "uwhalex"],
     ["uusd", "uusdc", "factory/migaloo1creator/uusd"],
+    ["uusd", "UUSD", "uUsd"],
 ];
 const FOREIGN: &str = "ux";
 /// a denom unrelated to the pool, held by every account (attached to foreign entry points)
@@ -1129,8 +1130,8 @@ fn monitors(
                 }
             }
             // C07: burned amount left the asset's supply
-            mon.check("C07", "trio_burn_leaves_supply", a.sup[ask] - b.sup[ask] == bf, || format!("supply {} -> {} burn fee {bf}", a.sup[ask], b.sup[ask]));
-            w.burned_sum[ask] += a.sup[ask] - b.sup[ask];
+            mon.check("C07", "trio_burn_leaves_supply", a.sup[ask].checked_sub(b.sup[ask]) == Some(bf), || format!("supply {} -> {} burn fee {bf}", a.sup[ask], b.sup[ask]));
+            w.burned_sum[ask] += a.sup[ask].saturating_sub(b.sup[ask]);
             // C15: an accepted swap WITH a belief price got at least expected·(1 − limit), where
             // expected = offer · ⌊10^36 / belief⌋ / 10^18 and limit = min(max_spread ?? 1%, 50%)
             if let Some(bp) = _bp {
@@ -1232,9 +1233,9 @@ fn monitors(
     }
     // ---- C07 ledgers after every operation
     for i in 0..3 {
-        mon.check("C07", "trio_ledger_eq", b.pend[i] == w.charged[i] - w.sent[i], || format!("asset {i}: pending {} charged {} sent {}", b.pend[i], w.charged[i], w.sent[i]));
+        mon.check("C07", "trio_ledger_eq", w.sent[i] <= w.charged[i] && b.pend[i] == w.charged[i] - w.sent[i].min(w.charged[i]), || format!("asset {i}: pending {} charged {} sent {}", b.pend[i], w.charged[i], w.sent[i]));
         mon.check("C07", "trio_all_time_eq", b.all[i] == w.charged[i] && b.all[i] >= a.all[i], || format!("asset {i}: all_time {} charged {}", b.all[i], w.charged[i]));
-        mon.check("C07", "trio_burned_eq", b.burned[i] == w.burned_sum[i] && b.burned[i] >= a.burned[i] && w.sup0[i] - b.sup[i] == b.burned[i], || {
+        mon.check("C07", "trio_burned_eq", b.burned[i] == w.burned_sum[i] && b.burned[i] >= a.burned[i] && w.sup0[i].checked_sub(b.sup[i]) == Some(b.burned[i]), || {
             format!("asset {i}: burned {} sum {} supply {} of {}", b.burned[i], w.burned_sum[i], b.sup[i], w.sup0[i])
         });
     }
